@@ -2,9 +2,7 @@
   Helper lemmas for the machine-arithmetic model (Model/Arith.lean), C12.
 -/
 import LtVerif.Model.Arith
-import LtVerif.Model.ArithRange
 import LtVerif.Model.H1Chunked
-import LtVerif.Proofs.Range
 namespace LtVerif
 namespace Arith
 open B
@@ -407,8 +405,18 @@ theorem or_one_bounds (x : Nat) (h : x < 4294967296) : x ≤ x ||| 1 ∧ x ||| 1
 
 /-- buffer_realloc(): for requests up to 2^32-65 the force_assert holds, the allocation has room
     for `len` bytes plus the NUL, and the size fits the 32-bit field (nothing is truncated) -/
+theorem or_one_le (x : Nat) : x ||| 1 ≤ x + 1 := by
+  have hx : x = 2 * (x / 2) + x % 2 := by omega
+  have h2 := Nat.two_pow_add_eq_or_of_lt (i := 1) (b := 1) (by decide) (x / 2)
+  simp only [Nat.pow_one] at h2
+  rcases Nat.mod_two_eq_zero_or_one x with h | h
+  · have e : x = 2 * (x / 2) := by omega
+    rw [e, ← h2]; omega
+  · have e : x = 2 * (x / 2) ||| 1 := by rw [← h2]; omega
+    rw [e, Nat.or_assoc, Nat.or_self, ← e]; omega
+
 theorem bufReallocSz_spec (len : Nat) (h : len ≤ 4294967231) :
-    ∃ sz, bufReallocSz len = some sz ∧ len + 1 ≤ sz ∧ sz ≤ 4294967295 := by
+    ∃ sz, bufReallocSz len = some sz ∧ len + 1 ≤ sz ∧ sz ≤ 4294967295 ∧ sz ≤ 2 * len + 258 := by
   unfold bufReallocSz
   simp only [piece_eq, cIntMax_eq, wrapSz, uszMax_eq]
   have hw : (len + 1 + (64 - 1)) % (18446744073709551615 + 1) = len + 64 := by
@@ -426,15 +434,17 @@ theorem bufReallocSz_spec (len : Nat) (h : len ≤ 4294967231) :
     obtain ⟨h1, h2⟩ := pow2From_spec 64 256 q (by omega) (by simp only [Nat.reducePow]; omega)
     have hr : pow2From 64 256 q < 4294967296 := by rcases h2 with h2 | h2 <;> omega
     have := or_one_bounds _ hr
-    exact ⟨_, rfl, by omega, by omega⟩
+    have hle := or_one_le (pow2From 64 256 q)
+    exact ⟨_, rfl, by omega, by omega, by rcases h2 with h2 | h2 <;> omega⟩
   · simp only [if_neg hc]
     have := or_one_bounds q (by omega)
-    exact ⟨_, rfl, by omega, by omega⟩
+    have hle := or_one_le q
+    exact ⟨_, rfl, by omega, by omega, by omega⟩
 
 theorem bufRealloc_spec (b : Buf) (len : Nat) (h : len ≤ 4294967231) :
-    ∃ sz, bufRealloc b len = .ok { b with size := sz } ∧ len + 1 ≤ sz ∧ sz ≤ 4294967295 := by
-  obtain ⟨sz, h1, h2, h3⟩ := bufReallocSz_spec len h
-  refine ⟨sz, ?_, h2, h3⟩
+    ∃ sz, bufRealloc b len = .ok { b with size := sz } ∧ len + 1 ≤ sz ∧ sz ≤ 4294967295 ∧ sz ≤ 2 * len + 258 := by
+  obtain ⟨sz, h1, h2, h3, h4⟩ := bufReallocSz_spec len h
+  refine ⟨sz, ?_, h2, h3, h4⟩
   simp only [bufRealloc, h1, wrap32, u32Max_eq]
   rw [Nat.mod_eq_of_lt (by omega)]
 
@@ -462,12 +472,13 @@ theorem decSz_pos (x : Nat) (h1 : 0 < x) (h2 : x ≤ 18446744073709551615) : dec
 theorem prepareAppend_spec (b : Buf) (n : Nat) (hwf : b.used ≤ b.size) (hsz : b.size ≤ 2147483616)
     (hn : b.used + n ≤ 4294967231) :
     ∃ b', prepareAppend b n = .ok b' ∧ bufLen b' = bufLen b ∧ bufLen b' + n + 1 ≤ b'.size ∧
-      b'.used ≤ b'.size ∧ b'.size ≤ 4294967295 ∧ (b'.used = b.used ∨ (b.used = 1 ∧ b'.used = 0)) := by
+      b'.used ≤ b'.size ∧ b'.size ≤ 4294967295 ∧ (b'.used = b.used ∨ (b.used = 1 ∧ b'.used = 0)) ∧
+      (b'.size = b.size ∨ (b.size < bufLen b + n + 1 ∧ b'.size ≤ 2 * (2 * b.size + b.used + n) + 258)) := by
   unfold prepareAppend
   by_cases hr : hasRoom b n = true
   · simp only [if_pos hr]
     have := (hasRoom_iff b n hwf (by omega) (by omega)).mp hr
-    exact ⟨b, rfl, rfl, this, hwf, by omega, Or.inl rfl⟩
+    exact ⟨b, rfl, rfl, this, hwf, by omega, Or.inl rfl, Or.inl rfl⟩
   · simp only [if_neg hr]
     have hnr : ¬ (bufLen b + n + 1 ≤ b.size) := fun h => hr ((hasRoom_iff b n hwf (by omega) (by omega)).mpr h)
     have hb2 := bsize2x_bounds b.size
@@ -477,7 +488,7 @@ theorem prepareAppend_spec (b : Buf) (n : Nat) (hwf : b.used ≤ b.size) (hsz : 
       have hl0 : bufLen b = 0 := by unfold bufLen; split <;> omega
       by_cases hns : n < b.size
       · simp only [if_pos hns]
-        refine ⟨⟨0, b.size⟩, rfl, ?_, ?_, by simp, by simp only; omega, ?_⟩
+        refine ⟨⟨0, b.size⟩, rfl, ?_, ?_, by simp, by simp only; omega, ?_, Or.inl rfl⟩
         · rw [hl0]; simp [bufLen]
         · simp only [bufLen]; simp; omega
         · simp; omega
@@ -487,8 +498,12 @@ theorem prepareAppend_spec (b : Buf) (n : Nat) (hwf : b.used ≤ b.size) (hsz : 
           split at harg
           · rw [decSz_pos _ (by omega) (by omega)] at harg; omega
           · omega
-        obtain ⟨sz, h1, h2, h3⟩ := bufRealloc_spec ⟨0, b.size⟩ arg harg'.2
-        refine ⟨_, h1, ?_, ?_, by simp, by simp only; omega, ?_⟩
+        have harg2 : arg ≤ 2 * b.size + n := by
+          split at harg
+          · rw [decSz_pos _ (by omega) (by omega)] at harg; omega
+          · omega
+        obtain ⟨sz, h1, h2, h3, h4⟩ := bufRealloc_spec ⟨0, b.size⟩ arg harg'.2
+        refine ⟨_, h1, ?_, ?_, by simp, by simp only; omega, ?_, Or.inr ⟨by omega, by show sz ≤ _; omega⟩⟩
         · rw [hl0]; simp [bufLen]
         · simp only [bufLen]; simp; omega
         · simp; omega
@@ -498,14 +513,15 @@ theorem prepareAppend_spec (b : Buf) (n : Nat) (hwf : b.used ≤ b.size) (hsz : 
         simp only [wrapSz, uszMax_eq]; omega
       rw [hd]
       generalize hreq : (if bsize2x b.size - b.used > n then decSz (bsize2x b.size) else wrapSz (b.used + n)) = req
-      have hreq' : b.used ≤ req ∧ req ≤ 4294967231 ∧ b.used + n ≤ req + 1 := by
+      have hreq' : b.used ≤ req ∧ req ≤ 4294967231 ∧ b.used + n ≤ req + 1 ∧ req ≤ 2 * b.size + b.used + n := by
         split at hreq
         · rw [decSz_pos _ (by omega) (by omega)] at hreq; omega
         · simp only [wrapSz, uszMax_eq] at hreq; omega
       have hge : ¬ ((!decide (req ≥ b.used)) = true) := by simp; omega
       simp only [if_neg hge]
-      obtain ⟨sz, h1, h2, h3⟩ := bufRealloc_spec b req hreq'.2.1
-      refine ⟨_, h1, ?_, ?_, (by show b.used ≤ sz; omega), (by show sz ≤ 4294967295; omega), Or.inl rfl⟩
+      obtain ⟨sz, h1, h2, h3, h4⟩ := bufRealloc_spec b req hreq'.2.1
+      refine ⟨_, h1, ?_, ?_, (by show b.used ≤ sz; omega), (by show sz ≤ 4294967295; omega), Or.inl rfl,
+        Or.inr ⟨by omega, by show sz ≤ _; omega⟩⟩
       · simp [bufLen]
       · simp only [bufLen]; split <;> omega
 
@@ -532,7 +548,7 @@ theorem commit_spec (b : Buf) (m : Nat) (h : bufLen b + m + 1 ≤ 4294967295) :
 theorem extend_spec (b : Buf) (n : Nat) (hwf : b.used ≤ b.size) (hsz : b.size ≤ 2147483616)
     (hn : b.used + n ≤ 4294967231) :
     ∃ b', extend b n = .ok b' ∧ b'.used = bufLen b + n + 1 ∧ b'.used ≤ b'.size ∧ b'.size ≤ 4294967295 := by
-  obtain ⟨b1, h1, h2, h3, h4, h5, _⟩ := prepareAppend_spec b n hwf hsz hn
+  obtain ⟨b1, h1, h2, h3, h4, h5, _, _⟩ := prepareAppend_spec b n hwf hsz hn
   have hl := bufLen_le b hwf
   have e : extend b n = match prepareAppend b n with
       | .abort => .abort
@@ -609,7 +625,9 @@ theorem contScan_spec (fsize id : Nat) (buf : Bytes) (hlen : buf.length ≤ 2147
     ∀ (fuel n loops : Nat), n ≤ buf.length → buf.length + 1 ≤ fuel + n →
       (∀ w l, contScan fsize id buf fuel n loops ≠ .inl (.ub w, l)) ∧
       (∀ nEnd l, contScan fsize id buf fuel n loops = .inr (nEnd, l) →
-        Frames buf n nEnd ∧ nEnd < Extracted.h2ContCap ∧ nEnd ≤ buf.length ∧ n + 9 ≤ nEnd) := by
+        Frames buf n nEnd ∧ nEnd < Extracted.h2ContCap ∧ nEnd ≤ buf.length ∧ n + 9 ≤ nEnd) ∧
+      (∀ need l, contScan fsize id buf fuel n loops = .inl (.incomplete need, l) →
+        buf.length < need ∧ (need ≤ Extracted.h2ContCap + 8 ∨ need ≤ n + 9)) := by
   intro fuel
   induction fuel with
   | zero => intro n loops h1 h2; omega
@@ -621,44 +639,55 @@ theorem contScan_spec (fsize id : Nat) (buf : Bytes) (hlen : buf.length ≤ 2147
     simp only [if_neg c1]
     by_cases c2 : buf.length < n + 9
     · simp only [if_pos c2]
-      exact ⟨(by intro w l h; cases h), (by intro nEnd l h; cases h)⟩
+      refine ⟨(by intro w l h; cases h), (by intro nEnd l h; cases h), ?_⟩
+      intro need l h
+      simp only [Sum.inl.injEq, Prod.mk.injEq, ScanStop.incomplete.injEq] at h
+      obtain ⟨h, _⟩ := h; subst h
+      exact ⟨c2, Or.inr (Nat.le_refl _)⟩
     · simp only [if_neg c2]
       by_cases c3 : buf.getD (n + 3) 0 ≠ 9
       · simp only [if_pos c3]
-        exact ⟨(by intro w l h; cases h), (by intro nEnd l h; cases h)⟩
+        exact ⟨(by intro w l h; cases h), (by intro nEnd l h; cases h), (by intro need l h; cases h)⟩
       · simp only [if_neg c3]
         by_cases c4 : id ≠ u32be buf (n + 5)
         · simp only [if_pos c4]
-          exact ⟨(by intro w l h; cases h), (by intro nEnd l h; cases h)⟩
+          exact ⟨(by intro w l h; cases h), (by intro nEnd l h; cases h), (by intro need l h; cases h)⟩
         · simp only [if_neg c4]
           by_cases c5 : u24 buf n > fsize
           · simp only [if_pos c5]
-            exact ⟨(by intro w l h; cases h), (by intro nEnd l h; cases h)⟩
+            exact ⟨(by intro w l h; cases h), (by intro nEnd l h; cases h), (by intro need l h; cases h)⟩
           · simp only [if_neg c5]
             have c6 : ¬ (n + 9 + u24 buf n > 4294967295) := by omega
             simp only [if_neg c6]
             by_cases c7 : n + 9 + u24 buf n ≥ Extracted.h2ContCap
             · simp only [if_pos c7]
-              exact ⟨(by intro w l h; cases h), (by intro nEnd l h; cases h)⟩
+              exact ⟨(by intro w l h; cases h), (by intro nEnd l h; cases h), (by intro need l h; cases h)⟩
             · simp only [if_neg c7]
               by_cases c8 : buf.length < n + 9 + u24 buf n
               · simp only [if_pos c8]
-                exact ⟨(by intro w l h; cases h), (by intro nEnd l h; cases h)⟩
+                refine ⟨(by intro w l h; cases h), (by intro nEnd l h; cases h), ?_⟩
+                intro need l h
+                simp only [Sum.inl.injEq, Prod.mk.injEq, ScanStop.incomplete.injEq] at h
+                obtain ⟨h, _⟩ := h; subst h
+                exact ⟨c8, Or.inl (by omega)⟩
               · simp only [if_neg c8]
                 by_cases c9 : has (buf.getD (n + 4) 0) flagEndHeaders = true
                 · simp only [if_pos c9]
-                  refine ⟨(by intro w l h; cases h), ?_⟩
+                  refine ⟨(by intro w l h; cases h), ?_, (by intro need l h; cases h)⟩
                   intro nEnd l h
                   simp only [Sum.inr.injEq, Prod.mk.injEq] at h
                   obtain ⟨h, _⟩ := h
                   subst h
                   exact ⟨Frames.last n (by omega) c9, by omega, by omega, by omega⟩
                 · simp only [if_neg c9]
-                  obtain ⟨i1, i2⟩ := ih (n + 9 + u24 buf n) (loops + 1) (by omega) (by omega)
-                  refine ⟨i1, ?_⟩
-                  intro nEnd l h
-                  obtain ⟨f, g1, g2, g3⟩ := i2 nEnd l h
-                  exact ⟨Frames.more n nEnd (by omega) (by simpa using c9) f, g1, g2, by omega⟩
+                  obtain ⟨i1, i2, i3⟩ := ih (n + 9 + u24 buf n) (loops + 1) (by omega) (by omega)
+                  refine ⟨i1, ?_, ?_⟩
+                  · intro nEnd l h
+                    obtain ⟨f, g1, g2, g3⟩ := i2 nEnd l h
+                    exact ⟨Frames.more n nEnd (by omega) (by simpa using c9) f, g1, g2, by omega⟩
+                  · intro need l h
+                    obtain ⟨g1, g2⟩ := i3 need l h
+                    exact ⟨g1, Or.inl (by rcases g2 with g2 | g2 <;> omega)⟩
 
 theorem contMerge_spec (buf : Bytes) {n nEnd : Nat} (hf : Frames buf n nEnd) :
     ∀ (fuel m : Nat) (acc : Bytes), m ≤ n → buf.length + 1 ≤ fuel + n →
@@ -704,17 +733,24 @@ theorem h2Cont_spec (fsize : Nat) (buf : Bytes) (h0 : 9 + u24 buf 0 ≤ buf.leng
     (hlen : buf.length ≤ 2147483648) :
     (∀ w, h2Cont fsize buf ≠ .ub w) ∧
     (∀ m out calm, h2Cont fsize buf = .merged m out calm →
-      9 ≤ m ∧ m < Extracted.h2ContCap ∧ m ≤ out.length ∧ out.length ≤ buf.length) := by
+      9 ≤ m ∧ m < Extracted.h2ContCap ∧ m ≤ out.length ∧ out.length ≤ buf.length) ∧
+    (∀ need calm, h2Cont fsize buf = .incomplete need calm →
+      buf.length < need ∧ (need ≤ Extracted.h2ContCap + 8 ∨ need ≤ 9 + u24 buf 0 + 9)) := by
   unfold h2Cont
   simp only []
-  obtain ⟨s1, s2⟩ := contScan_spec fsize (u31be buf 5) buf hlen (buf.length + 1) (9 + u24 buf 0) 0 h0 (by omega)
+  obtain ⟨s1, s2, s3⟩ := contScan_spec fsize (u31be buf 5) buf hlen (buf.length + 1) (9 + u24 buf 0) 0 h0 (by omega)
   cases hs : contScan fsize (u31be buf 5) buf (buf.length + 1) (9 + u24 buf 0) 0 with
   | inl p =>
     obtain ⟨o, l⟩ := p
     cases o with
     | ub w => exact absurd hs (s1 w l)
-    | incomplete need => exact ⟨(by intro w h; cases h), (by intro m out calm h; cases h)⟩
-    | goaway code => exact ⟨(by intro w h; cases h), (by intro m out calm h; cases h)⟩
+    | incomplete need =>
+      refine ⟨(by intro w h; cases h), (by intro m out calm h; cases h), ?_⟩
+      intro need' calm h
+      simp only [ContOut.incomplete.injEq] at h
+      obtain ⟨h, _⟩ := h; subst h
+      exact s3 need l hs
+    | goaway code => exact ⟨(by intro w h; cases h), (by intro m out calm h; cases h), (by intro need calm h; cases h)⟩
   | inr p =>
     obtain ⟨nEnd, loops⟩ := p
     obtain ⟨hfr, hcap, hend, hge⟩ := s2 nEnd loops hs
@@ -722,7 +758,7 @@ theorem h2Cont_spec (fsize : Nat) (buf : Bytes) (h0 : 9 + u24 buf 0 ≤ buf.leng
     generalize hk : (if has (buf.getD (9 + u24 buf 0 + 4) 0) flagPriority = true then 5 else 0) = kk
     by_cases hc1 : (has (buf.getD 4 0) flagPadded && decide (u24 buf 0 < 1 + (buf.getD 9 0).toNat + kk)) = true
     · simp only [if_pos hc1]
-      exact ⟨(by intro w h; cases h), (by intro m out calm h; cases h)⟩
+      exact ⟨(by intro w h; cases h), (by intro m out calm h; cases h), (by intro need calm h; cases h)⟩
     · simp only [if_neg hc1]
       by_cases hc2 : (has (buf.getD 4 0) flagPadded && decide (9 + u24 buf 0 < (buf.getD 9 0).toNat)) = true
       · exfalso
@@ -745,120 +781,20 @@ theorem h2Cont_spec (fsize : Nat) (buf : Bytes) (h0 : 9 + u24 buf 0 ≤ buf.leng
         simp only [e]
         have c : ¬ (m' < 9) := by omega
         simp only [if_neg c]
-        refine ⟨(by intro w h; cases h), ?_⟩
+        refine ⟨(by intro w h; cases h), ?_, (by intro need calm h; cases h)⟩
         intro m out calm h
         simp only [ContOut.merged.injEq] at h
         obtain ⟨h1, h2, _⟩ := h
         subst h1
         have hol : out.length = m' + (if nEnd < buf.length then buf.length - nEnd else 0) := by
           rw [← h2]
-          simp only [List.length_append, setU24, List.length_cons, List.length_nil, List.length_drop, g3, hheadlen]
+          simp only [List.length_append, List.length_set, setU24, List.length_cons, List.length_nil, List.length_drop, g3, hheadlen]
           split <;> simp <;> omega
         refine ⟨by omega, by omega, ?_, ?_⟩
         · rw [hol]; omega
         · rw [hol]; split <;> omega
 
 
-section RangeArith
-open Range
-
-/-! ### http_range.c arithmetic (over Model/Range.lean and Proofs/Range.lean) -/
-
-theorem rangeSuffixChk_spec (n len : Int) (hlen : 0 < len) (hmax : len ≤ LLONG_MAX)
-    (hn : n < 0) (hmin : LLONG_MIN ≤ n) (hne : n ≠ LLONG_MIN) :
-    rangeSuffixChk n len = .ok (if len > -n then len + n else 0, len - 1) := by
-  rw [llmax_eq] at hmax
-  rw [llmin_eq] at hmin hne
-  unfold rangeSuffixChk
-  rw [llmin_eq]
-  have h1 : inI64 (-n) = true := by rw [inI64_iff]; omega
-  have h2 : inI64 (len - 1) = true := by rw [inI64_iff]; omega
-  simp only [if_neg hne, h1, h2, Bool.not_true, Bool.false_eq_true, if_false]
-  by_cases h3 : len > -n
-  · have h4 : inI64 (len + n) = true := by rw [inI64_iff]; omega
-    simp only [if_pos h3, h4, Bool.not_true, Bool.false_eq_true, if_false]
-  · simp only [if_neg h3]
-
-theorem rangeStepChk_spec (len : Int) (hmax : len ≤ LLONG_MAX) (st : PSt) (rg : Rng)
-    (hrg : InB len rg) : rangeStepChk st rg = .ok (parseStep st rg) := by
-  rw [llmax_eq] at hmax
-  unfold rangeStepChk
-  split
-  · rfl
-  · split
-    · have h : inI64 (rg.1 - 80) = true := by
-        rw [inI64_iff]; obtain ⟨a, b, c⟩ := hrg; omega
-      simp only [h, Bool.not_true, Bool.false_eq_true, if_false]
-    · rfl
-
-theorem rangeOverlapsChk_spec (len : Int) (hmax : len ≤ LLONG_MAX) (b e : Int) (r : Rng)
-    (hb : InB len (b, e)) (hr : InB len r) : rangeOverlapsChk b e r = .ok (overlaps b e r) := by
-  rw [llmax_eq] at hmax
-  obtain ⟨a1, a2, a3⟩ := hb
-  obtain ⟨b1, b2, b3⟩ := hr
-  simp only at a1 a2 a3
-  unfold rangeOverlapsChk
-  split
-  · have h : inI64 (r.1 - 80) = true := by rw [inI64_iff]; omega
-    simp only [h, Bool.not_true, Bool.false_eq_true, if_false]
-  · have h : inI64 (b - 80) = true := by rw [inI64_iff]; omega
-    simp only [h, Bool.not_true, Bool.false_eq_true, if_false]
-
-/-- the parser state never holds more ranges than its current limit, and the limit never exceeds RMAX:
-    every `ranges[n]`, `ranges[n+1]` write of http_range_parse() is inside `off_t ranges[RMAX*2]` -/
-theorem parseStep_len_lim (st : PSt) (rg : Rng) (h1 : st.rs.length < st.lim) (h2 : st.lim ≤ RMAX) :
-    (parseStep st rg).1.rs.length ≤ (parseStep st rg).1.lim ∧ (parseStep st rg).1.lim ≤ RMAX := by
-  have hu : RMAX_UNSORTED ≤ RMAX := by decide
-  unfold parseStep
-  split
-  · rename_i hrs; simp only [List.length_cons, List.length_nil]; rw [hrs] at h1; omega
-  · rename_i prev more hrs
-    rw [hrs] at h1
-    simp only [List.length_cons] at h1
-    split
-    · split
-      · simp only [List.length_cons]; omega
-      · simp only [List.length_cons]; omega
-    · split
-      · rw [hrs]; simp only [List.length_cons]; omega
-      · simp only [List.length_cons]; omega
-
-theorem parseLoop_len (len : Int) (ps : List Bytes) : ∀ st : PSt, st.rs.length < st.lim → st.lim ≤ RMAX →
-    (parseLoop len st ps).rs.length ≤ RMAX := by
-  induction ps with
-  | nil => intro st h1 h2; simp only [parseLoop]; omega
-  | cons p ps ih =>
-    intro st h1 h2
-    unfold parseLoop
-    split
-    · exact ih st h1 h2
-    · rename_i rg _
-      obtain ⟨g1, g2⟩ := parseStep_len_lim st rg h1 h2
-      simp only
-      split
-      · omega
-      · rename_i hc
-        simp only [not_or, Nat.not_le] at hc
-        exact ih _ hc.2 g2
-
-theorem coalescePass_len {l l' : List Rng} (h : coalescePass l = some l') : l'.length ≤ l.length := by
-  have := coalescePass_length h; omega
-
-theorem parse_len (s : Bytes) (len : Int) : (parse s len).length ≤ RMAX := by
-  unfold parse
-  have h0 := parseLoop_len len (splitOn 44 s) { rs := [], lim := RMAX } (by simp; decide) (Nat.le_refl _)
-  simp only
-  split
-  · simpa using h0
-  · split
-    · simpa using h0
-    · refine coalesce_preserves (P := fun l => l.length ≤ RMAX) ?_ _ (by simpa using h0)
-      intro l l' hc hl
-      have := coalescePass_len hc
-      omega
-
-
-end RangeArith
 
 /-! ### accumulators that carry partial input across reads -/
 
@@ -906,19 +842,81 @@ theorem splitLf_nil_line {data line rest : Bytes} (h : splitLf data [] = some (l
 theorem noLf_false_of_mem {x : Bytes} (h : lf ∈ x) : noLf x = false := by
   simp [noLf, h]
 
+/-- the hex loop stops at the first non-hex byte: bytes appended after a LF do not change it -/
+theorem ckHex_append_lf (g : Int) (a b : Bytes) (ha : lf ∈ a) : ∀ (t : Int) (k : Nat),
+    (∀ te k' r, ckHex g a t k = .ok te k' r → ckHex g (a ++ b) t k = .ok te k' (r ++ b)) := by
+  induction a with
+  | nil => simp at ha
+  | cons x rest ih =>
+    intro t k te k' r h
+    simp only [List.cons_append, ckHex] at h ⊢
+    cases hx : hexVal x with
+    | none =>
+      simp only [hx] at h ⊢
+      injection h with h1 h2 h3
+      subst h1; subst h2; subst h3; simp
+    | some u =>
+      simp only [hx] at h ⊢
+      have hne : x ≠ lf := by intro e; subst e; simp [hexVal, isDigit, lf] at hx
+      have hrest : lf ∈ rest := by
+        simp only [List.mem_cons] at ha
+        rcases ha with e | e
+        · exact absurd e.symm hne
+        · exact e
+      split at h
+      · cases h
+      · split at h
+        · cases h
+        · split at h
+          · cases h
+          · split at h
+            · cases h
+            · rename_i c1 c2 c3 c4
+              simp only [if_neg c1, if_neg c2, if_neg c3, if_neg c4]
+              exact ih hrest _ _ te k' r h
+
+
 /-- bound of the header / trailer buffer `gw_dechunk->b` -/
 def gwBound (maxField : Nat) : Nat := Nat.max 1024 maxField
 
-/-- invariant of the decoder state between reads -/
+/-- largest value of `gw_chunked` -/
+def gwTeMax : Int := 9223372036854775777       -- (2^63 - 33) + 2
+
+/-- invariant of the decoder state between reads (and between loop iterations) -/
 structure GwInv (maxField : Nat) (st : GwSt) : Prop where
   live : st.done = false → st.h.length ≤ gwBound maxField
   all : st.h.length ≤ gwBound maxField + 4
   partialLine : noLf st.h = true → st.h.length ≤ 1024
+  te0 : 0 ≤ st.te
+  teMax : st.te ≤ gwTeMax
+  lastLine : st.done = false → lf ∈ st.h → ∃ k r, ckHex Extracted.ckGuardGw st.h 0 0 = .ok 0 k r
 
 theorem ckPartialMaxGw_eq : Extracted.ckPartialMaxGw = 1024 := by decide
 
+/-- outcomes of the last-chunk handling: error or stop, never `ub`, never another iteration -/
+def StopOrErr : GwIter → Prop
+  | .stop _ => True
+  | .err => True
+  | _ => False
+
+theorem gwLastChunk_shape (maxField : Nat) (st : GwSt) (h m : Bytes) (hsz : Nat) (p : Bytes) :
+    StopOrErr (gwLastChunk maxField st h m hsz p) := by
+  unfold gwLastChunk
+  simp only
+  generalize (if maxField > h.length then maxField - h.length else 0) = mlen
+  by_cases c1 : (decide ((m.length : Int) - (hsz : Int) ≥ 2) && decide (p.getD 0 0 = cr) && decide (p.getD 1 0 = lf)) = true
+  · rw [if_pos c1]; split <;> simp [StopOrErr]
+  · rw [if_neg c1]
+    by_cases c3 : (mlen : Int) < (m.length : Int)
+    · rw [if_pos c3]; simp [StopOrErr]
+    · rw [if_neg c3]
+      split
+      · split <;> simp [StopOrErr]
+      · simp [StopOrErr]
+
 theorem gwLastChunk_inv (maxField : Nat) (st : GwSt) (h m : Bytes) (hsz : Nat) (p : Bytes)
-    (hb : h.length ≤ gwBound maxField) (hlf : lf ∈ h ++ m) (st' : GwSt)
+    (hb : h.length ≤ gwBound maxField) (hlf : lf ∈ h ++ m)
+    (hline : ∃ k r, ckHex Extracted.ckGuardGw (h ++ m) 0 0 = .ok 0 k r) (st' : GwSt)
     (hr : gwLastChunk maxField st h m hsz p = .stop st') : GwInv maxField st' := by
   unfold gwLastChunk at hr
   simp only at hr
@@ -926,13 +924,14 @@ theorem gwLastChunk_inv (maxField : Nat) (st : GwSt) (h m : Bytes) (hsz : Nat) (
   have hmf : maxField ≤ gwBound maxField := Nat.le_max_right _ _
   have hm1 : h.length + mlen ≤ gwBound maxField := by split at hml <;> omega
   have hm2 : maxField ≤ h.length + mlen := by split at hml <;> omega
+  have hte : (0 : Int) ≤ gwTeMax := by unfold gwTeMax; omega
   by_cases c1 : (decide ((m.length : Int) - (hsz : Int) ≥ 2) && decide (p.getD 0 0 = cr) && decide (p.getD 1 0 = lf)) = true
   · rw [if_pos c1] at hr
     by_cases c2 : (m.length : Int) - (hsz : Int) > 2
     · rw [if_pos c2] at hr; cases hr
     · rw [if_neg c2] at hr
       injection hr with hr; subst hr
-      exact ⟨by intro _; simp, by simp, by intro _; simp⟩
+      exact ⟨(by intro _; simp), (by simp), (by intro _; simp), Int.le_refl _, hte, (by intro hd; simp at hd)⟩
   · rw [if_neg c1] at hr
     by_cases c3 : (mlen : Int) < (m.length : Int)
     · rw [if_pos c3] at hr
@@ -940,13 +939,15 @@ theorem gwLastChunk_inv (maxField : Nat) (st : GwSt) (h m : Bytes) (hsz : Nat) (
       have hh1 : (h ++ m.take mlen).length ≤ gwBound maxField := by
         simp only [List.length_append, List.length_take]; omega
       generalize (h ++ m.take mlen) = h1 at hh1 ⊢
-      refine ⟨by intro hd; simp at hd, ?_, ?_⟩
+      refine ⟨(by intro hd; simp at hd), ?_, ?_, Int.le_refl _, hte, (by intro hd; simp at hd)⟩
       · simp only
         split
         · split
           · simp only [List.length_append, List.length_take, List.length_cons, List.length_nil]; omega
           · simp only [List.length_append, List.length_take, List.length_cons, List.length_nil]; omega
-        · simp only [List.length_append, List.length_cons, List.length_nil]; have : 1024 ≤ gwBound maxField := Nat.le_max_left _ _; omega
+        · simp only [List.length_append, List.length_cons, List.length_nil]
+          have : 1024 ≤ gwBound maxField := Nat.le_max_left _ _
+          omega
       · intro hn
         exfalso
         simp only at hn
@@ -959,57 +960,63 @@ theorem gwLastChunk_inv (maxField : Nat) (st : GwSt) (h m : Bytes) (hsz : Nat) (
       · split at hr
         · cases hr
         · injection hr with hr; subst hr
-          exact ⟨by intro _; exact hlen, by simp only; omega, by intro hn; simp only at hn; rw [hnl] at hn; cases hn⟩
+          exact ⟨(by intro _; exact hlen), (by simp only; omega), (by intro hn; simp only at hn; rw [hnl] at hn; cases hn),
+            Int.le_refl _, hte, (by intro hd; simp at hd)⟩
       · injection hr with hr; subst hr
-        exact ⟨by intro _; exact hlen, by simp only; omega, by intro hn; simp only at hn; rw [hnl] at hn; cases hn⟩
+        exact ⟨(by intro _; exact hlen), (by simp only; omega), (by intro hn; simp only at hn; rw [hnl] at hn; cases hn),
+          Int.le_refl _, hte, (by intro _ _; exact hline)⟩
 
-theorem gwLastChunk_not_cont (maxField : Nat) (st : GwSt) (h m : Bytes) (hsz : Nat) (p : Bytes)
-    (st' : GwSt) (m' : Bytes) : gwLastChunk maxField st h m hsz p ≠ .cont st' m' := by
-  unfold gwLastChunk
-  simp only
-  generalize (if maxField > h.length then maxField - h.length else 0) = mlen
-  intro hr
-  by_cases c1 : (decide ((m.length : Int) - (hsz : Int) ≥ 2) && decide (p.getD 0 0 = cr) && decide (p.getD 1 0 = lf)) = true
-  · rw [if_pos c1] at hr
-    split at hr <;> cases hr
-  · rw [if_neg c1] at hr
-    by_cases c3 : (mlen : Int) < (m.length : Int)
-    · rw [if_pos c3] at hr; cases hr
-    · rw [if_neg c3] at hr
-      split at hr
-      · split at hr <;> cases hr
-      · cases hr
+theorem gwInv_nil (maxField : Nat) (st : GwSt) (te : Int) (h0 : 0 ≤ te) (h1 : te ≤ gwTeMax) :
+    GwInv maxField { st with te := te, h := [] } :=
+  ⟨(by intro _; simp), (by simp), (by intro _; simp), h0, h1, (by intro _ hm; simp at hm)⟩
 
-theorem gwInv_nil (maxField : Nat) (st : GwSt) : GwInv maxField { st with h := [] } :=
-  ⟨by intro _; simp, by simp, by intro _; simp⟩
+/-- what one loop iteration guarantees -/
+structure IterOk (maxField : Nat) (st : GwSt) (m : Bytes) (x : GwIter) : Prop where
+  noUb : ∀ w, x ≠ .ub w
+  stop : ∀ st', x = .stop st' → GwInv maxField st'
+  cont : ∀ st' m', x = .cont st' m' → GwInv maxField st' ∧ st'.done = st.done ∧ m'.length < m.length
 
-theorem gwLine_inv (maxField : Nat) (st : GwSt) (src : Bytes) (lineOk : Bool) (h m : Bytes) (hsz adv : Nat)
-    (p : Bytes) (fromH : Bool) (hb : h.length ≤ gwBound maxField) (hlf : lf ∈ h ++ m) :
-    (∀ st', gwLine maxField st src lineOk h m hsz adv p fromH = .stop st' → GwInv maxField st') ∧
-    (∀ st' m', gwLine maxField st src lineOk h m hsz adv p fromH = .cont st' m' →
-      GwInv maxField st' ∧ st'.done = st.done) := by
+theorem gwLine_ok (maxField : Nat) (st : GwSt) (src : Bytes) (lineOk : Bool) (h m mFull : Bytes) (hsz adv : Nat)
+    (p : Bytes) (fromH : Bool) (hb : h.length ≤ gwBound maxField) (hlf : lf ∈ h ++ m)
+    (hsrc : ∀ k r, ckHex Extracted.ckGuardGw src 0 0 = .ok 0 k r →
+      ∃ k' r', ckHex Extracted.ckGuardGw (h ++ m) 0 0 = .ok 0 k' r')
+    (hstale : fromH = true → hsz ≠ 0 → ∀ te k r, ckHex Extracted.ckGuardGw src 0 0 = .ok te k r → te = 0)
+    (hshort : ∀ te k r, ckHex Extracted.ckGuardGw src 0 0 = .ok te k r → te ≠ 0 → (m.drop adv).length < mFull.length) :
+    IterOk maxField st mFull (gwLine maxField st src lineOk h m hsz adv p fromH) := by
+  obtain ⟨hub, hok⟩ := ckHex_spec Extracted.ckGuardGw ckGuardGw_le src 0 0 (by unfold ckTeMax; omega)
   unfold gwLine
   split
-  · exact ⟨fun _ hr => (nomatch hr), fun _ _ hr => (nomatch hr)⟩
-  · exact ⟨fun _ hr => (nomatch hr), fun _ _ hr => (nomatch hr)⟩
-  · rename_i te k after _
+  · rename_i w hx; exact absurd hx (hub w)
+  · exact ⟨fun _ hr => (nomatch hr), fun _ hr => (nomatch hr), fun _ _ hr => (nomatch hr)⟩
+  · rename_i te k after hx
+    obtain ⟨n, hn1, hn2, _, _⟩ := hok te k after hx
+    unfold ckTeMax at hn2
     split
-    · exact ⟨fun _ hr => (nomatch hr), fun _ _ hr => (nomatch hr)⟩
+    · exact ⟨fun _ hr => (nomatch hr), fun _ hr => (nomatch hr), fun _ _ hr => (nomatch hr)⟩
     · split
-      · exact ⟨fun st' hr => gwLastChunk_inv maxField st h m hsz p hb hlf st' hr,
-          fun st' m' hr => absurd hr (gwLastChunk_not_cont maxField st h m hsz p st' m')⟩
-      · split
-        · exact ⟨fun _ hr => (nomatch hr), fun _ _ hr => (nomatch hr)⟩
+      · rename_i hz
+        subst hz
+        have hshape := gwLastChunk_shape maxField st h m hsz p
+        refine ⟨?_, fun st' hr => gwLastChunk_inv maxField st h m hsz p hb hlf (hsrc k after hx) st' hr, ?_⟩
+        · intro w hr; rw [hr] at hshape; exact hshape
+        · intro st' m' hr; rw [hr] at hshape; exact absurd hshape (by simp [StopOrErr])
+      · rename_i hnz
+        split
+        · rename_i hst
+          simp only [Bool.and_eq_true, decide_eq_true_eq] at hst
+          exact absurd (hstale hst.1 hst.2 te k after hx) hnz
         · simp only
+          have hin : inI64 (te + 2) = true := by rw [inI64_iff]; omega
+          simp only [hin, Bool.not_true, Bool.false_eq_true, if_false]
+          have h0 : (0 : Int) ≤ te + 2 := by omega
+          have h1 : te + 2 ≤ gwTeMax := by unfold gwTeMax; omega
           split
-          · exact ⟨fun _ hr => (nomatch hr), fun _ _ hr => (nomatch hr)⟩
-          · split
-            · refine ⟨?_, fun _ _ hr => (nomatch hr)⟩
-              intro st' hr; injection hr with hr; subst hr
-              exact gwInv_nil maxField { st with te := te + 2 }
-            · refine ⟨fun _ hr => (nomatch hr), ?_⟩
-              intro st' m' hr; injection hr with hr1 hr2; subst hr1
-              exact ⟨gwInv_nil maxField { st with te := te + 2 }, rfl⟩
+          · refine ⟨fun _ hr => (nomatch hr), ?_, fun _ _ hr => (nomatch hr)⟩
+            intro st' hr; injection hr with hr; subst hr
+            exact gwInv_nil maxField st (te + 2) h0 h1
+          · refine ⟨fun _ hr => (nomatch hr), fun _ hr => (nomatch hr), ?_⟩
+            intro st' m' hr; injection hr with hr1 hr2; subst hr1; subst hr2
+            exact ⟨gwInv_nil maxField st (te + 2) h0 h1, rfl, hshort te k after hx hnz⟩
 
 theorem lfIdx_none (data : Bytes) : ∀ k, lfIdx data k = none → lf ∉ data := by
   induction data with
@@ -1032,143 +1039,592 @@ theorem splitLf_none {data acc : Bytes} (h : splitLf data acc = none) : noLf dat
     simp [noLf, this]
   · cases h
 
-theorem gwInv_of_eq {maxField : Nat} {st st' : GwSt} (hh : st'.h = st.h) (hd : st'.done = st.done)
-    (hi : GwInv maxField st) : GwInv maxField st' :=
-  ⟨by rw [hh, hd]; exact hi.live, by rw [hh]; exact hi.all, by rw [hh]; exact hi.partialLine⟩
+/-- an iteration outcome of the data phase: header buffer and `done` untouched, counter
+    stays in range, the rest of the read gets shorter -/
+def Keeps (st : GwSt) (m : Bytes) : GwIter → Prop
+  | .stop s => s.h = st.h ∧ s.done = st.done ∧ 0 ≤ s.te ∧ s.te ≤ st.te
+  | .cont s m' => s.h = st.h ∧ s.done = st.done ∧ 0 ≤ s.te ∧ s.te ≤ st.te ∧ m'.length < m.length
+  | .err => True
+  | .ub _ => False
 
-/-- an iteration outcome that leaves the header buffer and the `done` flag alone -/
-def Keeps (st : GwSt) : GwIter → Prop
-  | .stop s => s.h = st.h ∧ s.done = st.done
-  | .cont s _ => s.h = st.h ∧ s.done = st.done
-  | _ => True
+theorem gwInv_keep {maxField : Nat} {st s : GwSt} (hh : s.h = st.h) (hd : s.done = st.done)
+    (h0 : 0 ≤ s.te) (h1 : s.te ≤ st.te) (hi : GwInv maxField st) : GwInv maxField s :=
+  ⟨(by rw [hh, hd]; exact hi.live), (by rw [hh]; exact hi.all), (by rw [hh]; exact hi.partialLine), h0,
+   Int.le_trans h1 hi.teMax, (by rw [hh, hd]; exact hi.lastLine)⟩
 
-theorem keeps_inv {maxField : Nat} {st : GwSt} {x : GwIter} (hi : GwInv maxField st) (hd : st.done = false)
-    (hk : Keeps st x) :
-    (∀ st', x = .stop st' → GwInv maxField st') ∧
-    (∀ st' m', x = .cont st' m' → GwInv maxField st' ∧ st'.done = false) := by
-  constructor
-  · intro st' e; subst e; exact gwInv_of_eq hk.1 hk.2 hi
-  · intro st' m' e; subst e; exact ⟨gwInv_of_eq hk.1 hk.2 hi, by rw [hk.2]; exact hd⟩
+theorem keeps_ok {maxField : Nat} {st : GwSt} {m : Bytes} {x : GwIter} (hi : GwInv maxField st)
+    (hk : Keeps st m x) : IterOk maxField st m x := by
+  refine ⟨?_, ?_, ?_⟩
+  · intro w e; subst e; exact hk
+  · intro st' e; subst e; exact gwInv_keep hk.1 hk.2.1 hk.2.2.1 hk.2.2.2 hi
+  · intro st' m' e; subst e
+    exact ⟨gwInv_keep hk.1 hk.2.1 hk.2.2.1 hk.2.2.2.1 hi, hk.2.1, hk.2.2.2.2⟩
 
-theorem gwIter_inv (maxField : Nat) (st : GwSt) (m : Bytes) (hi : GwInv maxField st) (hd : st.done = false) :
-    (∀ st', gwIter maxField st m = .stop st' → GwInv maxField st') ∧
-    (∀ st' m', gwIter maxField st m = .cont st' m' → GwInv maxField st' ∧ st'.done = false) := by
+theorem ckHex_fun {g : Int} {src : Bytes} {te te' : Int} {k k' : Nat} {r r' : Bytes}
+    (h1 : ckHex g src 0 0 = .ok te k r) (h2 : ckHex g src 0 0 = .ok te' k' r') : te = te' := by
+  rw [h1] at h2; injection h2
+
+theorem gwIter_ok (maxField : Nat) (st : GwSt) (m : Bytes) (hi : GwInv maxField st) (hd : st.done = false)
+    (hm : 0 < m.length) : IterOk maxField st m (gwIter maxField st m) := by
   have h1024 : 1024 ≤ gwBound maxField := Nat.le_max_left _ _
+  have hte0 := hi.te0
   unfold gwIter
   split
   · -- te = 0
     split
     · -- header buffer blank
-      rename_i hemp
       split
-      · split
-        · exact ⟨fun _ hr => (nomatch hr), fun _ _ hr => (nomatch hr)⟩
+      · rename_i hs
+        have hnl := splitLf_none hs
+        split
+        · exact ⟨fun _ hr => (nomatch hr), fun _ hr => (nomatch hr), fun _ _ hr => (nomatch hr)⟩
         · rename_i hlt
           rw [ckPartialMaxGw_eq] at hlt
-          refine ⟨?_, fun _ _ hr => (nomatch hr)⟩
+          refine ⟨fun _ hr => (nomatch hr), ?_, fun _ _ hr => (nomatch hr)⟩
           intro st' hr; injection hr with hr; subst hr
-          exact ⟨by intro _; simp only; omega, by simp only; omega, by intro _; simp only; omega⟩
+          exact ⟨(by intro _; simp only; omega), (by simp only; omega), (by intro _; simp only; omega), hi.te0, hi.teMax,
+            (by intro _ hmem; simp only at hmem; rw [noLf_false_of_mem hmem] at hnl; cases hnl)⟩
       · rename_i line rest hs
-        have hm := (splitLf_mem hs).1
-        have := gwLine_inv maxField st m (!(decide (line.length = 1) || decide (line.getD (line.length - 2) 0 ≠ cr)))
-          [] m line.length line.length rest false (by simp) (by simpa using hm)
-        exact ⟨this.1, fun st' m' hr => by have := this.2 st' m' hr; exact ⟨this.1, by rw [this.2]; exact hd⟩⟩
+        have hmm := (splitLf_mem hs).1
+        have hll := splitLf_length m [] line rest hs
+        obtain ⟨hl, hmem⟩ := splitLf_nil_line hs
+        have hlpos : 0 < line.length := by cases line with | nil => simp at hmem | cons _ _ => simp
+        exact gwLine_ok maxField st m _ [] m m line.length line.length rest false (by simp) (by simpa using hmm)
+          (by intro k r h; exact ⟨k, r, by simpa using h⟩) (by intro hf; cases hf)
+          (by intro _ _ _ _ _; simp only [List.length_drop]; simp at hll; omega)
     · split
       · rename_i line rest hs
-        have hm := (splitLf_mem hs).1
-        have := gwLine_inv maxField st st.h (decide (st.h.getD (st.h.length - 2) 0 = cr)) st.h m line.length 0 rest true
-          (hi.live hd) (by simp [hm])
-        exact ⟨this.1, fun st' m' hr => by have := this.2 st' m' hr; exact ⟨this.1, by rw [this.2]; exact hd⟩⟩
+        have hmm := (splitLf_mem hs).1
+        obtain ⟨k0, r0, h0⟩ := hi.lastLine hd hmm
+        exact gwLine_ok maxField st st.h _ st.h m m line.length 0 rest true (hi.live hd) (by simp [hmm])
+          (by intro k r h; exact ⟨k, r ++ m, ckHex_append_lf _ st.h m hmm 0 0 0 k r h⟩)
+          (by intro _ _ te k r h; exact ckHex_fun h h0)
+          (by intro te k r h hne; exact absurd (ckHex_fun h h0) hne)
       · rename_i hs
         have hp := hi.partialLine (splitLf_none hs)
         have hw : wrap32 (Extracted.ckPartialMaxGw + (u32Max + 1) - st.h.length) = 1024 - st.h.length := by
           simp only [wrap32, ckPartialMaxGw_eq, u32Max_eq]; omega
         rw [hw]
         split
-        · split
-          · exact ⟨fun _ hr => (nomatch hr), fun _ _ hr => (nomatch hr)⟩
+        · rename_i hsm
+          have hnl2 := splitLf_none hsm
+          split
+          · exact ⟨fun _ hr => (nomatch hr), fun _ hr => (nomatch hr), fun _ _ hr => (nomatch hr)⟩
           · rename_i hfit
-            refine ⟨?_, fun _ _ hr => (nomatch hr)⟩
+            refine ⟨fun _ hr => (nomatch hr), ?_, fun _ _ hr => (nomatch hr)⟩
             intro st' hr; injection hr with hr; subst hr
             have hl' : (st.h ++ m).length ≤ 1024 := by simp only [List.length_append]; omega
-            exact ⟨by intro _; simp only; omega, by simp only; omega, by intro _; simp only; omega⟩
+            have hnl1 := splitLf_none hs
+            refine ⟨(by intro _; simp only; omega), (by simp only; omega), (by intro _; simp only; omega), hi.te0, hi.teMax, ?_⟩
+            intro _ hmem
+            simp only [List.mem_append] at hmem
+            rcases hmem with e | e
+            · rw [noLf_false_of_mem e] at hnl1; cases hnl1
+            · rw [noLf_false_of_mem e] at hnl2; cases hnl2
         · rename_i line rest hsm
           obtain ⟨hl, hmem⟩ := splitLf_nil_line hsm
+          have hll := splitLf_length m [] line rest hsm
+          have hlpos : 0 < line.length := by cases line with | nil => simp at hmem | cons _ _ => simp
           split
-          · exact ⟨fun _ hr => (nomatch hr), fun _ _ hr => (nomatch hr)⟩
+          · exact ⟨fun _ hr => (nomatch hr), fun _ hr => (nomatch hr), fun _ _ hr => (nomatch hr)⟩
           · rename_i hfit
             have hl' : (st.h ++ line).length ≤ 1024 := by simp only [List.length_append]; omega
             have hlf : lf ∈ st.h ++ line := List.mem_append_right _ hmem
-            have := gwLine_inv maxField st (st.h ++ line)
-              (decide ((st.h ++ line).getD ((st.h ++ line).length - 2) 0 = cr))
-              (st.h ++ line) rest 0 0 rest true (by omega) (List.mem_append_left _ hlf)
-            exact ⟨this.1, fun st' m' hr => by have := this.2 st' m' hr; exact ⟨this.1, by rw [this.2]; exact hd⟩⟩
-  · -- chunk data, its CRLF: the header buffer is not touched
-    apply keeps_inv hi hd
+            exact gwLine_ok maxField st (st.h ++ line) _ (st.h ++ line) rest m 0 0 rest true (by omega)
+              (List.mem_append_left _ hlf)
+              (by intro k r h; exact ⟨k, r ++ rest, ckHex_append_lf _ (st.h ++ line) rest hlf 0 0 0 k r h⟩)
+              (by intro _ hne; exact absurd rfl hne)
+              (by intro _ _ _ _ _; simp at hll ⊢; omega)
+  · -- chunk data and its CRLF: the header buffer is not touched
+    apply keeps_ok hi
+    have hte1 := hi.teMax
     simp only
     repeat' split
-    all_goals simp [Keeps]
-
-theorem gwLoop_inv (maxField : Nat) : ∀ (fuel : Nat) (st : GwSt) (m : Bytes), GwInv maxField st → st.done = false →
-    ∀ st', gwLoop maxField fuel st m = .ok st' → GwInv maxField st' := by
+    all_goals simp only [Keeps, List.length_drop, true_and]
+    all_goals try simp only [List.length_drop] at *
+    all_goals first | trivial | omega
+theorem gwLoop_ok (maxField : Nat) : ∀ (fuel : Nat) (st : GwSt) (m : Bytes), GwInv maxField st → st.done = false →
+    m.length < fuel →
+    (∀ w, gwLoop maxField fuel st m ≠ .ub w) ∧ (∀ st', gwLoop maxField fuel st m = .ok st' → GwInv maxField st') := by
   intro fuel
   induction fuel with
-  | zero => intro st m _ _ st' hr; cases hr
+  | zero => intro st m _ _ hf; omega
   | succ fuel ih =>
-    intro st m hi hd st' hr
-    simp only [gwLoop] at hr
-    split at hr
-    · injection hr with hr; subst hr; exact hi
-    · have := gwIter_inv maxField st m hi hd
-      split at hr
-      · cases hr
-      · cases hr
+    intro st m hi hd hf
+    simp only [gwLoop]
+    split
+    · exact ⟨fun _ hr => (nomatch hr), fun st' hr => by injection hr with hr; subst hr; exact hi⟩
+    · rename_i hne
+      have hm : 0 < m.length := by cases m with | nil => simp at hne | cons _ _ => simp
+      have hk := gwIter_ok maxField st m hi hd hm
+      split
+      · rename_i w hit; exact absurd hit (hk.noUb w)
+      · exact ⟨fun _ hr => (nomatch hr), fun _ hr => (nomatch hr)⟩
       · rename_i st1 hit
-        injection hr with hr; subst hr
-        exact this.1 _ hit
+        exact ⟨fun _ hr => (nomatch hr), fun st' hr => by injection hr with hr; subst hr; exact hk.stop _ hit⟩
       · rename_i st1 m1 hit
-        obtain ⟨h1, h2⟩ := this.2 _ _ hit
-        exact ih st1 m1 h1 h2 st' hr
+        obtain ⟨h1, h2, h3⟩ := hk.cont _ _ hit
+        exact ih st1 m1 h1 (by rw [h2]; exact hd) (by omega)
 
-theorem gwRead_inv (maxField : Nat) (st : GwSt) (m : Bytes) (hi : GwInv maxField st) (st' : GwSt)
-    (hr : gwRead maxField st m = .ok st') : GwInv maxField st' := by
-  unfold gwRead at hr
-  split at hr
-  · cases hr
+theorem gwRead_ok (maxField : Nat) (st : GwSt) (m : Bytes) (hi : GwInv maxField st) :
+    (∀ w, gwRead maxField st m ≠ .ub w) ∧ (∀ st', gwRead maxField st m = .ok st' → GwInv maxField st') := by
+  unfold gwRead
+  split
+  · exact ⟨fun _ hr => (nomatch hr), fun _ hr => (nomatch hr)⟩
   · rename_i hd
-    exact gwLoop_inv maxField _ st m hi (by simpa using hd) st' hr
+    exact gwLoop_ok maxField _ st m hi (by simpa using hd) (by omega)
 
 /-- invariant of a run over a sequence of reads -/
 structure GwRunInv (maxField : Nat) (r : GwRun) : Prop where
   st : GwInv maxField r.st
   maxh : r.maxh ≤ gwBound maxField + 4
   maxp : r.maxp ≤ 1024
+  noUb : r.fail = none ∨ r.fail = some "err"
 
 theorem gwRunStep_inv (maxField : Nat) (r : GwRun) (m : Bytes) (hi : GwRunInv maxField r) :
     GwRunInv maxField (gwRunStep maxField r m) := by
+  obtain ⟨hub, hok⟩ := gwRead_ok maxField r.st m hi.st
   unfold gwRunStep
   split
   · exact hi
-  · split
-    · exact ⟨hi.st, hi.maxh, hi.maxp⟩
-    · exact ⟨hi.st, hi.maxh, hi.maxp⟩
+  · rename_i hnf
+    split
+    · rename_i w hr; exact absurd hr (hub w)
+    · exact ⟨hi.st, hi.maxh, hi.maxp, Or.inr rfl⟩
     · rename_i st' hr
-      have hs := gwRead_inv maxField r.st m hi.st st' hr
-      refine ⟨hs, ?_, ?_⟩
+      have hs := hok st' hr
+      refine ⟨hs, ?_, ?_, ?_⟩
       · simp only; exact Nat.max_le.mpr ⟨hi.maxh, hs.all⟩
       · simp only
         split
         · rename_i hn; exact Nat.max_le.mpr ⟨hi.maxp, hs.partialLine hn⟩
         · exact hi.maxp
+      · simp only
+        left
+        cases hf : r.fail with
+        | none => rfl
+        | some x => simp [hf] at hnf
 
 theorem gwRun_inv (maxField : Nat) (reads : List Bytes) : GwRunInv maxField (gwRun maxField reads) := by
   unfold gwRun
   have h0 : GwRunInv maxField ({} : GwRun) :=
-    ⟨⟨by intro _; simp, by simp, by intro _; simp⟩, by simp, by simp⟩
+    ⟨⟨(by intro _; simp), (by simp), (by intro _; simp), (by simp), (by simp [gwTeMax]), (by intro _ hm; simp at hm)⟩,
+      (by simp), (by simp), Or.inl rfl⟩
   generalize ({} : GwRun) = r0 at h0
   induction reads generalizing r0 with
   | nil => exact h0
   | cons m rest ih => simp only [List.foldl_cons]; exact ih _ (gwRunStep_inv maxField r0 m h0)
+
+/-- bytes of the request stream the HTTP/1 chunked decoder keeps unconsumed in the read queue
+    (C01 automaton `ckStep`): the incomplete chunk-size line, the first byte of a chunk's CRLF,
+    the last-chunk line with the trailer section -/
+def ckBuffered : CkMode → Nat
+  | .hdr acc _ => acc.length
+  | .crlf (some _) => 1
+  | .trailer acc _ _ => acc.length
+  | _ => 0
+
+theorem ckParseLine_len {line : Bytes} {n : Nat} (h : ckParseLine line = .ok n) : line.length < 1024 := by
+  apply Decidable.byContradiction
+  intro hge
+  have hge' : line.length ≥ 1024 := by omega
+  unfold ckParseLine at h
+  split at h
+  · cases h
+  · simp only [hge', if_true] at h
+    split at h
+    · cases h
+    · split at h
+      · cases h
+      · repeat' split at h
+        all_goals cases h
+
+theorem ckStep_buffered (cfg : CkCfg) (s : CkSt) (b : UInt8)
+    (h : ckBuffered s.mode < Nat.max 1024 cfg.maxField) :
+    ckBuffered (ckStep cfg s b).mode < Nat.max 1024 cfg.maxField := by
+  have h1 : 1024 ≤ Nat.max 1024 cfg.maxField := Nat.le_max_left _ _
+  have h2 : cfg.maxField ≤ Nat.max 1024 cfg.maxField := Nat.le_max_right _ _
+  obtain ⟨mode, out, ka, after⟩ := s
+  cases mode with
+  | hdr acc nul =>
+    simp only [ckStep]
+    split
+    · split
+      · simp [ckBuffered]; omega
+      · rename_i hp
+        have := ckParseLine_len hp
+        simp only [ckBuffered]; omega
+      · split <;> (simp [ckBuffered]; omega)
+    · split
+      · simp [ckBuffered]; omega
+      · rename_i hlt
+        simp only [ckBuffered]
+        simp only [ge_iff_le, Nat.not_le] at hlt
+        omega
+  | data n => simp only [ckStep]; split <;> (simp [ckBuffered]; omega)
+  | crlf f =>
+    cases f with
+    | none => simp [ckStep, ckBuffered]; omega
+    | some a => simp only [ckStep]; split <;> (simp [ckBuffered]; omega)
+  | trailer acc off nul =>
+    simp only [ckStep]
+    split
+    · simp [ckBuffered]; omega
+    · split
+      · simp [ckBuffered]; omega
+      · rename_i hlt
+        simp only [ckBuffered]
+        simp only [ge_iff_le, Nat.not_le] at hlt
+        omega
+  | done => simp [ckStep, ckBuffered]; omega
+  | err e => simpa [ckStep] using h
+
+theorem ckFeed_buffered (cfg : CkCfg) (bs : Bytes) : ∀ s : CkSt,
+    ckBuffered s.mode < Nat.max 1024 cfg.maxField →
+    ckBuffered (ckFeed cfg s bs).mode < Nat.max 1024 cfg.maxField := by
+  induction bs with
+  | nil => intro s h; exact h
+  | cons b rest ih =>
+    intro s h
+    show ckBuffered (ckFeed cfg (ckStep cfg s b) rest).mode < _
+    exact ih _ (ckStep_buffered cfg s b h)
+
+
+/-! ### h1_chunked(): whole calls over arbitrary histories -/
+
+theorem ckPartialMaxH1_eq : Extracted.ckPartialMaxH1 = 1024 := by decide
+
+/-- invariant of the request-body decoder state; `budget` bounds the bytes received so far
+    (already counted in `bytes_in` or still in the read queue) -/
+structure H1Inv (budget : Int) (st : H1St) : Prop where
+  te0 : 0 ≤ st.te
+  teMax : st.te ≤ gwTeMax
+  te1 : st.te ≠ 1
+  in0 : 0 ≤ st.bytesIn
+  sum : st.bytesIn + st.q.length ≤ budget
+
+/-- what is left in the read queue when a call returns without completing the body -/
+def H1Wait (maxField : Nat) (st : H1St) : Prop :=
+  st.done = false → st.q.length < Nat.max 1024 maxField
+
+structure H1IterOk (budget : Int) (maxField : Nat) (st : H1St) (x : H1Iter) : Prop where
+  noUb : ∀ w, x ≠ .ub w
+  stop : ∀ st', x = .stop st' → H1Inv budget st' ∧ H1Wait maxField st'
+  cont : ∀ st', x = .cont st' → H1Inv budget st' ∧ st'.done = st.done ∧ st'.q.length < st.q.length
+
+theorem h1Iter_ok (budget : Int) (hbud : budget ≤ 9223372036854775807) (msKB maxField : Nat)
+    (hms : msKB ≤ 4294967295) (st : H1St) (hi : H1Inv budget st) (hq : 0 < st.q.length) :
+    H1IterOk budget maxField st (h1Iter msKB maxField st) := by
+  have h1024 : 1024 ≤ Nat.max 1024 maxField := Nat.le_max_left _ _
+  have hmf : maxField ≤ Nat.max 1024 maxField := Nat.le_max_right _ _
+  obtain ⟨t0, tM, t1, i0, hs⟩ := hi
+  unfold gwTeMax at tM
+  unfold h1Iter
+  split
+  · -- chunk header
+    rename_i hz
+    split
+    · split
+      · exact ⟨fun _ hr => (nomatch hr), fun _ hr => (nomatch hr), fun _ hr => (nomatch hr)⟩
+      · rename_i hlt
+        rw [ckPartialMaxH1_eq] at hlt
+        refine ⟨fun _ hr => (nomatch hr), ?_, fun _ hr => (nomatch hr)⟩
+        intro st' hr; injection hr with hr; subst hr
+        exact ⟨⟨t0, by unfold gwTeMax; omega, t1, i0, hs⟩, by intro _; omega⟩
+    · rename_i i hidx
+      simp only
+      obtain ⟨hub, hok⟩ := ckHex_spec Extracted.ckGuardH1 ckGuardH1_le (st.q.take (i + 1)) 0 0 (by unfold ckTeMax; omega)
+      split
+      · rename_i w hx; exact absurd hx (hub w)
+      · exact ⟨fun _ hr => (nomatch hr), fun _ hr => (nomatch hr), fun _ hr => (nomatch hr)⟩
+      · rename_i te k after hx
+        obtain ⟨n, hn1, hn2, _, _⟩ := hok te k after hx
+        unfold ckTeMax at hn2
+        subst hn1
+        split
+        · exact ⟨fun _ hr => (nomatch hr), fun _ hr => (nomatch hr), fun _ hr => (nomatch hr)⟩
+        · split
+          · exact ⟨fun _ hr => (nomatch hr), fun _ hr => (nomatch hr), fun _ hr => (nomatch hr)⟩
+          · split
+            · -- last chunk
+              split
+              · refine ⟨fun _ hr => (nomatch hr), ?_, fun _ hr => (nomatch hr)⟩
+                intro st' hr; injection hr with hr; subst hr
+                refine ⟨⟨t0, by unfold gwTeMax; omega, t1, i0, ?_⟩, by intro h; simp at h⟩
+                simp only [List.length_drop]; omega
+              · split
+                · refine ⟨fun _ hr => (nomatch hr), ?_, fun _ hr => (nomatch hr)⟩
+                  intro st' hr; injection hr with hr; subst hr
+                  refine ⟨⟨t0, by unfold gwTeMax; omega, t1, i0, ?_⟩, by intro h; simp at h⟩
+                  simp only [List.length_drop]; omega
+                · split
+                  · rename_i hlt
+                    refine ⟨fun _ hr => (nomatch hr), ?_, fun _ hr => (nomatch hr)⟩
+                    intro st' hr; injection hr with hr; subst hr
+                    exact ⟨⟨t0, by unfold gwTeMax; omega, t1, i0, hs⟩, by intro _; omega⟩
+                  · refine ⟨fun _ hr => (nomatch hr), ?_, fun _ hr => (nomatch hr)⟩
+                    intro st' hr; injection hr with hr; subst hr
+                    refine ⟨⟨t0, by unfold gwTeMax; omega, t1, i0, ?_⟩, by intro h; simp at h⟩
+                    simp only [List.length_nil]; omega
+            · rename_i hnz
+              have h1 : inI64 ((msKB : Int) * 1024) = true := by rw [inI64_iff]; omega
+              have h2 : inI64 ((n : Int) + 2) = true := by rw [inI64_iff]; omega
+              simp only [h1, h2, Bool.not_true, Bool.false_eq_true, if_false]
+              split
+              · exact ⟨fun _ hr => (nomatch hr), fun _ hr => (nomatch hr), fun _ hr => (nomatch hr)⟩
+              · refine ⟨fun _ hr => (nomatch hr), fun _ hr => (nomatch hr), ?_⟩
+                intro st' hr; injection hr with hr; subst hr
+                refine ⟨⟨by simp only; omega, by simp only; unfold gwTeMax; omega, by simp only; omega, i0, ?_⟩, rfl, ?_⟩
+                · simp only [List.length_drop]; omega
+                · simp only [List.length_drop]; omega
+  · -- chunk data and its CRLF
+    rename_i hnz
+    simp only
+    have h1 : inI64 (st.te - 2) = true := by rw [inI64_iff]; omega
+    have h2 : inI64 (Extracted.ckInMemMax - st.bytesIn) = true := by rw [inI64_iff, ckInMemMax_eq]; omega
+    simp only [h1, h2, Bool.not_true, Bool.false_eq_true, if_false]
+    generalize hnn : (if st.te > 2 then (if (st.q.length : Int) > st.te - 2 then st.te - 2 else (st.q.length : Int)) else 0) = nn
+    have hb : 0 ≤ nn ∧ nn ≤ st.q.length ∧ nn ≤ st.te - 2 ∧ (st.te > 2 → nn = st.te - 2 ∨ nn = st.q.length) := by
+      split at hnn
+      · split at hnn <;> omega
+      · omega
+    have h3 : inI64 (st.bytesIn + nn) = true := by rw [inI64_iff]; omega
+    have h4 : inI64 (st.te - nn) = true := by rw [inI64_iff]; omega
+    simp only [h3, h4, Bool.not_true, Bool.false_eq_true, if_false]
+    have hlen : (st.q.drop nn.toNat).length = st.q.length - nn.toNat := by simp
+    split
+    · rename_i hlt
+      refine ⟨fun _ hr => (nomatch hr), ?_, fun _ hr => (nomatch hr)⟩
+      intro st' hr; injection hr with hr; subst hr
+      refine ⟨⟨by simp only; omega, by simp only; unfold gwTeMax; omega, by simp only; omega, by simp only; omega, ?_⟩, ?_⟩
+      · simp only [hlen]; omega
+      · intro _; simp only [hlen] at hlt ⊢; omega
+    · rename_i hge
+      split
+      · rename_i h2e
+        split
+        · exact ⟨fun _ hr => (nomatch hr), fun _ hr => (nomatch hr), fun _ hr => (nomatch hr)⟩
+        · split
+          · exact ⟨fun _ hr => (nomatch hr), fun _ hr => (nomatch hr), fun _ hr => (nomatch hr)⟩
+          · refine ⟨fun _ hr => (nomatch hr), fun _ hr => (nomatch hr), ?_⟩
+            intro st' hr; injection hr with hr; subst hr
+            refine ⟨⟨by simp, by simp only; unfold gwTeMax; omega, by simp, by simp only; omega, ?_⟩, rfl, ?_⟩
+            · simp only [List.length_drop]; omega
+            · simp only [List.length_drop, hlen] at hge ⊢; omega
+      · rename_i h2ne
+        refine ⟨fun _ hr => (nomatch hr), fun _ hr => (nomatch hr), ?_⟩
+        intro st' hr; injection hr with hr; subst hr
+        exfalso
+        simp only [hlen] at hge
+        omega
+
+theorem h1Loop_ok (budget : Int) (hbud : budget ≤ 9223372036854775807) (msKB maxField : Nat)
+    (hms : msKB ≤ 4294967295) : ∀ (fuel : Nat) (st : H1St), H1Inv budget st → 0 < st.q.length → st.q.length < fuel →
+    (∀ w, h1Loop msKB maxField fuel st ≠ .ub w) ∧
+    (∀ st', h1Loop msKB maxField fuel st = .ok st' → H1Inv budget st' ∧ H1Wait maxField st') := by
+  intro fuel
+  induction fuel with
+  | zero => intro st _ _ hf; omega
+  | succ fuel ih =>
+    intro st hi hq hf
+    have hk := h1Iter_ok budget hbud msKB maxField hms st hi hq
+    simp only [h1Loop]
+    split
+    · rename_i w hit; exact absurd hit (hk.noUb w)
+    · exact ⟨fun _ hr => (nomatch hr), fun _ hr => (nomatch hr)⟩
+    · rename_i st1 hit
+      exact ⟨fun _ hr => (nomatch hr), fun st' hr => by injection hr with hr; subst hr; exact hk.stop _ hit⟩
+    · rename_i st1 hit
+      obtain ⟨h1, _, h3⟩ := hk.cont _ hit
+      split
+      · rename_i he
+        refine ⟨fun _ hr => (nomatch hr), ?_⟩
+        intro st' hr; injection hr with hr; subst hr
+        refine ⟨h1, ?_⟩
+        intro _
+        have : st1.q.length = 0 := by cases hq1 : st1.q with | nil => rfl | cons _ _ => simp [hq1] at he
+        have : 1024 ≤ Nat.max 1024 maxField := Nat.le_max_left _ _
+        omega
+      · rename_i hne
+        have hq1 : 0 < st1.q.length := by cases hq1 : st1.q with | nil => simp [hq1] at hne | cons _ _ => simp
+        exact ih st1 h1 hq1 (by omega)
+
+theorem h1Call_ok (budget : Int) (hbud : budget ≤ 9223372036854775807) (msKB maxField : Nat)
+    (hms : msKB ≤ 4294967295) (st : H1St) (m : Bytes) (hi : H1Inv (budget - m.length) st)
+    (_hw : H1Wait maxField st) :
+    (∀ w, h1Call msKB maxField st m ≠ .ub w) ∧
+    (∀ st', h1Call msKB maxField st m = .ok st' → H1Inv budget st' ∧ H1Wait maxField st') := by
+  have hi1 : H1Inv budget { st with q := st.q ++ m } :=
+    ⟨hi.te0, hi.teMax, hi.te1, hi.in0, by have := hi.sum; simp only [List.length_append]; omega⟩
+  unfold h1Call
+  simp only
+  split
+  · rename_i he
+    refine ⟨fun _ hr => (nomatch hr), ?_⟩
+    intro st' hr; injection hr with hr; subst hr
+    refine ⟨hi1, ?_⟩
+    intro _
+    have : (st.q ++ m).length = 0 := by cases hq1 : (st.q ++ m) with | nil => rfl | cons _ _ => simp [hq1] at he
+    have : 1024 ≤ Nat.max 1024 maxField := Nat.le_max_left _ _
+    simp only at this ⊢; omega
+  · rename_i hne
+    have hq1 : 0 < (st.q ++ m).length := by
+      cases hq1 : (st.q ++ m) with | nil => simp [hq1] at hne | cons _ _ => simp
+    exact h1Loop_ok budget hbud msKB maxField hms _ _ hi1 hq1 (by simp only; omega)
+
+/-- invariant of a run: `budget` = bytes that may have been received so far -/
+structure H1RunInv (budget : Int) (maxField : Nat) (r : H1Run) : Prop where
+  st : H1Inv budget r.st
+  wait : H1Wait maxField r.st
+  maxrest : r.maxrest < Nat.max 1024 maxField
+  noUb : r.fail = none ∨ ∃ e : Nat, r.fail = some ("err " ++ toString e)
+
+theorem h1RunStep_inv (budget : Int) (hbud : budget ≤ 9223372036854775807) (msKB maxField : Nat)
+    (hms : msKB ≤ 4294967295) (r : H1Run) (m : Bytes) (hi : H1RunInv (budget - m.length) maxField r) :
+    H1RunInv budget maxField (h1RunStep msKB maxField r m) := by
+  have hmono : H1Inv budget r.st :=
+    ⟨hi.st.te0, hi.st.teMax, hi.st.te1, hi.st.in0, by have := hi.st.sum; omega⟩
+  obtain ⟨hub, hok⟩ := h1Call_ok budget hbud msKB maxField hms r.st m hi.st hi.wait
+  unfold h1RunStep
+  split
+  · exact ⟨hmono, hi.wait, hi.maxrest, hi.noUb⟩
+  · rename_i hnf
+    split
+    · rename_i w hr; exact absurd hr (hub w)
+    · rename_i e _
+      exact ⟨hmono, hi.wait, hi.maxrest, Or.inr ⟨e, rfl⟩⟩
+    · rename_i st' hr
+      obtain ⟨h1, h2⟩ := hok st' hr
+      refine ⟨h1, h2, ?_, ?_⟩
+      · simp only
+        split
+        · exact hi.maxrest
+        · rename_i hdn
+          exact Nat.max_lt.mpr ⟨hi.maxrest, h2 (by simpa using hdn)⟩
+      · simp only
+        left
+        cases hf : r.fail with
+        | none => rfl
+        | some x => simp [hf] at hnf
+
+theorem h1Run_inv (msKB maxField : Nat) (hms : msKB ≤ 4294967295) (reads : List Bytes) :
+    ∀ (r0 : H1Run) (budget : Int), budget + ((reads.map List.length).sum : Nat) ≤ 9223372036854775807 →
+      H1RunInv budget maxField r0 →
+      H1RunInv (budget + ((reads.map List.length).sum : Nat)) maxField (reads.foldl (h1RunStep msKB maxField) r0) := by
+  induction reads with
+  | nil => intro r0 budget _ h; simpa using h
+  | cons m rest ih =>
+    intro r0 budget hb h
+    simp only [List.map_cons, List.sum_cons, List.foldl_cons] at hb ⊢
+    have hstep := h1RunStep_inv (budget + m.length) (by omega) msKB maxField hms r0 m
+      (by have : budget + (m.length : Int) - (m.length : Int) = budget := by omega
+          rw [this]; exact h)
+    have := ih (h1RunStep msKB maxField r0 m) (budget + m.length) (by push_cast at hb ⊢; omega) hstep
+    have e : budget + ((m.length + (rest.map List.length).sum : Nat) : Int)
+        = budget + (m.length : Int) + (((rest.map List.length).sum : Nat) : Int) := by push_cast; omega
+    rw [e]; exact this
+
+
+/-! ### closure of the buffer operations under a length limit -/
+
+/-- invariant of a buffer whose string never grows beyond `L` bytes -/
+structure BInv (L : Nat) (b : Buf) : Prop where
+  wf : b.used ≤ b.size
+  size : b.size ≤ 6 * L + 300
+  len : bufLen b ≤ L
+
+/-- the caller's side of the contract for one operation, given the length limit `L` -/
+def Legal (L : Nat) (b : Buf) : BufOp → Prop
+  | .prep n => bufLen b + n ≤ L
+  | .commit m => bufLen b + m + 1 ≤ b.size ∧ bufLen b + m ≤ L      -- room was prepared
+  | .extend n => bufLen b + n ≤ L
+  | .copy n => n ≤ L
+  | .trunc n => n ≤ bufLen b ∧ 0 < b.size                           -- b->ptr exists
+  | .clear => True
+
+def LegalRun (L : Nat) : Buf → List BufOp → Prop
+  | _, [] => True
+  | b, op :: rest => Legal L b op ∧ ∀ b', bufStep b op = .ok b' → LegalRun L b' rest
+
+theorem prepareCopy_spec (b : Buf) (n : Nat) (hsz : b.size ≤ 2147483616) (hn : n ≤ 2147483647) :
+    ∃ b', prepareCopy b n = .ok b' ∧ b'.used = 0 ∧ n + 1 ≤ b'.size ∧ b'.size ≤ 4294967295 ∧
+      (b'.size = b.size ∨ (b.size ≤ n ∧ b'.size ≤ 2 * (2 * b.size + n) + 258)) := by
+  have hb2 := bsize2x_bounds b.size
+  unfold prepareCopy
+  simp only
+  by_cases hns : n < b.size
+  · simp only [if_pos hns]
+    exact ⟨_, rfl, rfl, by simp only; omega, by simp only; omega, Or.inl rfl⟩
+  · simp only [if_neg hns]
+    generalize harg : (if bsize2x b.size > n then decSz (bsize2x b.size) else n) = arg
+    have harg' : n ≤ arg ∧ arg ≤ 4294967231 ∧ arg ≤ 2 * b.size + n := by
+      split at harg
+      · rw [decSz_pos _ (by omega) (by omega)] at harg; omega
+      · omega
+    obtain ⟨sz, h1, h2, h3, h4⟩ := bufRealloc_spec ⟨0, b.size⟩ arg harg'.2.1
+    exact ⟨_, h1, rfl, by show n + 1 ≤ sz; omega, by show sz ≤ _; omega, Or.inr ⟨by omega, by show sz ≤ _; omega⟩⟩
+
+theorem bufStep_inv (L : Nat) (hL : L ≤ 268435456) (b : Buf) (op : BufOp) (hi : BInv L b) (hl : Legal L b op) :
+    ∃ b', bufStep b op = .ok b' ∧ BInv L b' := by
+  obtain ⟨hwf, hsize, hlen⟩ := hi
+  have hlb := bufLen_le b hwf
+  have hused : b.used ≤ L + 1 := by unfold bufLen at hlen; split at hlen <;> omega
+  have hub : b.used ≤ bufLen b + 1 := by unfold bufLen; split <;> omega
+  cases op with
+  | prep n =>
+    simp only [Legal] at hl
+    obtain ⟨b', h1, h2, h3, h4, h5, _, h7⟩ := prepareAppend_spec b n hwf (by omega) (by omega)
+    refine ⟨b', h1, h4, ?_, by omega⟩
+    rcases h7 with h7 | h7 <;> omega
+  | commit m =>
+    simp only [Legal] at hl
+    have := commit_spec b m (by omega)
+    have e : bufLen (⟨bufLen b + m + 1, b.size⟩ : Buf) = bufLen b + m := by simp [bufLen]
+    refine ⟨_, this, ?_, hsize, ?_⟩
+    · show bufLen b + m + 1 ≤ b.size; omega
+    · rw [e]; omega
+  | extend n =>
+    simp only [Legal] at hl
+    obtain ⟨b1, h1, h2, h3, h4, h5, _, h7⟩ := prepareAppend_spec b n hwf (by omega) (by omega)
+    obtain ⟨b', e1, e2, e3, e4⟩ := extend_spec b n hwf (by omega) (by omega)
+    have hsz' : b'.size = b1.size := by
+      have e : extend b n = match prepareAppend b n with
+          | .abort => .abort
+          | .ok b' => .ok { b' with used := wrap32 (bufLen b + n + 1) } := rfl
+      rw [e, h1] at e1
+      injection e1 with e1; rw [← e1]
+    have e : bufLen b' = bufLen b + n := by simp [bufLen, e2]
+    refine ⟨b', e1, e3, ?_, ?_⟩
+    · rw [hsz']; rcases h7 with h7 | h7 <;> omega
+    · rw [e]; omega
+  | copy n =>
+    simp only [Legal] at hl
+    obtain ⟨b', h1, h2, h3, h4, h5⟩ := prepareCopy_spec b n (by omega) (by omega)
+    refine ⟨b', h1, by omega, ?_, ?_⟩
+    · rcases h5 with h5 | h5 <;> omega
+    · simp [bufLen, h2]
+  | trunc n =>
+    simp only [Legal] at hl
+    refine ⟨_, rfl, ?_, hsize, ?_⟩
+    · show wrap32 (n + 1) ≤ b.size
+      simp only [wrap32, u32Max_eq]; rw [Nat.mod_eq_of_lt (by omega)]
+      unfold bufLen at hl hlb; split at hl <;> omega
+    · show bufLen (truncate b n) ≤ L
+      simp only [bufLen, truncate, wrap32, u32Max_eq]; rw [Nat.mod_eq_of_lt (by omega)]; simp; omega
+  | clear =>
+    refine ⟨_, rfl, ?_, hsize, ?_⟩
+    · show 0 ≤ b.size; omega
+    · simp [bufLen, clear]
+
+theorem bufRun_inv (L : Nat) (hL : L ≤ 268435456) (ops : List BufOp) : ∀ b : Buf, BInv L b → LegalRun L b ops →
+    ∃ b', bufRun b ops = .ok b' ∧ BInv L b' := by
+  induction ops with
+  | nil => intro b hi _; exact ⟨b, rfl, hi⟩
+  | cons op rest ih =>
+    intro b hi hl
+    obtain ⟨b1, h1, h2⟩ := bufStep_inv L hL b op hi hl.1
+    simp only [bufRun, h1]
+    exact ih b1 h2 (hl.2 b1 h1)
 
 
 end Arith
